@@ -730,8 +730,21 @@ def unify_chunks_expr(*args, warn=True):
     arrays, inds = zip(*arginds)
     if all(ind is None for ind in inds):
         return {}, list(arrays), False
+    # A length-1 axis broadcasts, but is only recognised as such when chunked (1,).
+    # Zero-width chunks next to it (e.g. (1, 0) out of a concatenate with an empty
+    # array) would be imposed on the other operands: drop them first.
+    squeezed = False
+    for k, (a, ind) in enumerate(arginds):
+        if ind is None or ind == () or isinstance(a, ArrayBlockwiseDep):
+            continue
+        stray = {n: (1,) for n, (s, c) in enumerate(zip(a.shape, a.chunks)) if s == 1 and len(c) > 1}
+        if stray:
+            arginds[k] = (a.rechunk(stray), ind)
+            squeezed = True
+    if squeezed:
+        arrays, inds = zip(*arginds)
     if all(ind == inds[0] for ind in inds) and all(a.chunks == arrays[0].chunks for a in arrays):
-        return dict(zip(inds[0], arrays[0].chunks)), arrays, False
+        return dict(zip(inds[0], arrays[0].chunks)), arrays, squeezed
 
     nameinds = []
     blockdim_dict = dict()
@@ -902,7 +915,7 @@ def unify_chunks_expr(*args, warn=True):
                     a = a.rechunk(chunks)
                     changed = True
         arrays.append(a)
-    return chunkss, arrays, changed
+    return chunkss, arrays, changed or squeezed
 
 
 class FinalizeComputeArray(FinalizeCompute, ArrayExpr):
